@@ -1110,3 +1110,94 @@ def _unary_form(name, defined, value):
 _unary_form("visit_op1_form_log_not", is_bool, lambda x, res: AND(is_bool(res), lambda: BOOL_EQ(bv(res), NOT(bv(x)))))
 _unary_form("visit_op1_form_inv_pos", is_rat, lambda x, res: AND(is_rat(res), lambda: rv(res) == rv(x)))
 _unary_form("visit_op1_form_inv_neg", is_rat, lambda x, res: AND(is_rat(res), lambda: rv(res) == -rv(x)))
+
+
+# ------------------------------------------------------------------------------------------------ error locations (funnel)
+ERROR = "pydsdl._error.Error"
+PathK = Rec("Path", id=Int)  # a pathlib.Path: only stored, compared and tested for presence (a Path is always truthy)
+
+
+@class_spec(ERROR)
+class _ErrorSpec:
+    fields = dict(_path=Opt(PathK), _line=Opt(Int))
+
+
+def _known(opt_line):
+    """a line number counts as known iff it is present and non-zero (lines are numbered from one)"""
+    from pyvc.speclib import IS_NONE, VAL
+
+    return AND(NOT(IS_NONE(opt_line)), lambda: NOT(VAL(opt_line) == 0))
+
+
+@contract(ERROR + ".set_error_location_if_unknown", props=["C13"])
+class _SetErrorLocation:
+    """Entries that are already known are left unchanged; unknown entries take the supplied value (if one is supplied)."""
+    params = dict(path=Opt(PathK), line=Opt(Int))
+    modifies = ["_path", "_line"]
+
+    def pre(s):
+        # snapshot of the pre-state for the postcondition (the receiver is updated in place)
+        s.__dict__["old_path"], s.__dict__["old_line"] = s.self._path, s.self._line
+        return {}
+
+    def post(s):
+        from pyvc.speclib import IS_NONE
+
+        return {
+            "path-kept-if-known": IMPLIES(NOT(IS_NONE(s.old_path)), lambda: EQ(s.self._path, s.old_path)),
+            "path-attached-if-unknown": IMPLIES(AND(IS_NONE(s.old_path), NOT(IS_NONE(s.path))), lambda: EQ(s.self._path, s.path)),
+            "path-stays-unknown": IMPLIES(AND(IS_NONE(s.old_path), IS_NONE(s.path)), lambda: IS_NONE(s.self._path)),
+            "line-kept-if-known": IMPLIES(_known(s.old_line), lambda: EQ(s.self._line, s.old_line)),
+            "line-attached-if-unknown": IMPLIES(AND(NOT(_known(s.old_line)), _known(s.line)), lambda: EQ(s.self._line, s.line)),
+            "line-otherwise-unchanged": IMPLIES(AND(NOT(_known(s.old_line)), NOT(_known(s.line))),
+                                                lambda: EQ(s.self._line, s.old_line)),
+        }
+
+
+SSP = PARSER + "StatementStreamProcessor"
+
+
+@class_spec(SSP)
+class _SSPSpec:
+    fields = {}
+
+
+@class_spec(PARSER + "_ParseTreeProcessor")
+class _PTPSpec2:
+    fields = dict(_current_line_number=Int)
+
+
+inline_ok(PTP + "__init__", PTP + "current_line_number", why="constructor / accessor of the parse tree processor: inlined")
+
+
+@contract(PARSER + "_get_grammar", props=["C13"])
+class _GetGrammar:
+    returns = X.GrammarK
+    verify = False
+    assumed = "third party: the parsimonious Grammar object built from grammar.parsimonious (PEG semantics assumed)"
+
+
+def EXC_LINE_KNOWN(exc):
+    """the raised pydsdl Error carries a line number"""
+    if smt():
+        ln = speclib.CTX.engine.lib.exc_attr(speclib.CTX, exc, "_line")
+        if ln is None:
+            return False
+        if isinstance(ln, int):
+            return ln != 0
+        if isinstance(ln, z3.ExprRef):
+            return ln != 0
+        return _known(ln)
+    return bool(exc.line)
+
+
+@contract(PARSER + "parse", props=["C13"])
+class _Parse:
+    """The funnel.  Error passes with its line attached; a text the grammar rejects is a DSDLSyntaxError; InternalError
+    only if a visitor raised something that is not a pydsdl Error (ghost: visitor_crashed - excluded for the visitors
+    under contract by their `noraise` obligations) or raised InternalError itself; nothing else ever leaves."""
+    params = dict(text=Str, statement_stream_processor=ObjOf(SSP), strict=Bool)
+    raises_if = {
+        "InternalError": lambda s: OR(X.VISITOR_CRASHED, X.VISITOR_INTERNAL) if smt() else True,
+        "InvalidDefinitionError": lambda s: EXC_LINE_KNOWN(s.exc),
+    }
